@@ -413,9 +413,17 @@ class MinMaxAggregator:
         lits_without_vars = []
         rest_vars: set[AST] = set()  # variable names that are used in- but also outside of the aggregate
         inside_variables = set(chain(*map(lambda x: collect_ast(x, "Variable"), agg.atom.elements)))
+        global_variables = global_vars_inside_body(rule.body)
         for blit in rule.body:
             if blit == agg:
                 continue
+            local_variables = set(collect_ast(blit, "Variable")) - global_variables
+            if local_variables.intersection(inside_variables):
+                log.info(
+                    f"Cannot translate {loc2str(agg.location)} as another literal has a local variable with the "
+                    "same name as a variable of the aggregate."
+                )
+                return [rule]
             blit_vars = set(collect_ast(blit, "Variable"))
             if len(blit_vars.intersection(inside_variables)) != 0:
                 rest_vars.update(blit_vars)
